@@ -9,6 +9,9 @@ use std::task::Poll;
 pub struct C(pub u32);
 /// argument for methods whose result borrows from a parameter
 pub static PARAM: C = C(0);
+/// a cloneable leaf whose TYPE carries a lifetime parameter (behind a reference in return types: `&W<'_>`); it prints like C
+#[derive(Clone, Debug, PartialEq, Eq)]
+pub struct W<'a>(pub u32, pub std::marker::PhantomData<&'a ()>);
 /// owned leaf that is NOT Clone
 #[derive(Debug, PartialEq, Eq)]
 pub struct N(pub u32);
@@ -50,6 +53,11 @@ impl Build for C {
 impl Build for N {
     fn build(t: &mut Toks) -> Self {
         N(t.num())
+    }
+}
+impl Build for W<'static> {
+    fn build(t: &mut Toks) -> Self {
+        W(t.num(), std::marker::PhantomData)
     }
 }
 impl Build for String {
@@ -145,6 +153,14 @@ impl Data for C {
         self as *const C as usize
     }
 }
+impl Data for W<'_> {
+    fn text(&self, s: &mut String) {
+        s.push_str(&format!("C({})", self.0));
+    }
+    fn addr(&self) -> usize {
+        self as *const W as usize
+    }
+}
 impl Data for N {
     fn text(&self, s: &mut String) {
         s.push_str(&format!("N({})", self.0));
@@ -186,6 +202,11 @@ impl Obs for C {
     }
 }
 impl Obs for N {
+    fn obs(&self, seen: &mut Seen) {
+        self.text(&mut seen.text)
+    }
+}
+impl Obs for W<'_> {
     fn obs(&self, seen: &mut Seen) {
         self.text(&mut seen.text)
     }
